@@ -375,6 +375,8 @@ def opform(line):
             ks.append('r16')
         elif re.match(r'^[abcd][lh]$', o):
             ks.append('cl' if o == 'cl' and len(ks) >= 1 else 'r8' + ('h' if o[1] == 'h' else ''))
+        elif re.match(r'^[cdefgs]s$', o):
+            ks.append('sreg')
         elif re.match(r'^(st(\(\d\))?|mm\d|xmm\d)$', o):
             ks.append(re.sub(r'[\d()]', '', o))
         elif o.startswith('.'):
